@@ -681,7 +681,7 @@ func (dc *ClientDnsConnection) AutodetectFragmentSize() (uint32, error) {
 	var max uint32 = 0
 
 	log.Debugf("Autoprobing max downstream fragment size... (skip with -m fragsize)")
-	for !dc.Closed() && (fragmentRange >= 8 || max < 300) {
+	for !dc.Closed() && fragmentRange > 0 && (fragmentRange >= 8 || max < 300) {
 		/* stop the slow probing early when we have enough bytes anyway */
 		for i := 0; !dc.Closed() && i < 3; i++ {
 			resp, err := dc.SendFragmentSizeTest(proposed, secs(1))
@@ -713,23 +713,24 @@ func (dc *ClientDnsConnection) AutodetectFragmentSize() (uint32, error) {
 				}
 			} else {
 				max = proposed
-			}
-
-			if max < 0 {
 				break
 			}
+		}
 
-			fragmentRange = fragmentRange >> 1
+		if max != proposed && fragmentRange > proposed {
+			/* the search goes on below a size which did not work */
+			fragmentRange = proposed
+		}
+		fragmentRange = fragmentRange >> 1
 
-			if max == proposed {
-				/* Try bigger */
-				log.Tracef("%d ok, will try %d next.. ", proposed, proposed+fragmentRange)
-				proposed += fragmentRange
-			} else {
-				/* Try smaller */
-				log.Tracef("%d not ok, will try %d next.. ", proposed, proposed-fragmentRange)
-				proposed -= fragmentRange
-			}
+		if max == proposed {
+			/* Try bigger */
+			log.Tracef("%d ok, will try %d next.. ", proposed, proposed+fragmentRange)
+			proposed += fragmentRange
+		} else {
+			/* Try smaller */
+			log.Tracef("%d not ok, will try %d next.. ", proposed, proposed-fragmentRange)
+			proposed -= fragmentRange
 		}
 	}
 	if dc.Closed() {
